@@ -213,7 +213,7 @@ def run(ctx: Check) -> int:
                 "spaces; Watch/Alarm/Simulate arguments = tag ws* op ws* value (ws+ unit)? over all 7 operators, every "
                 "supported unit, numbers with sign/fraction/exponent (many ending in 2 or 3), text values. Near-misses: "
                 "1-2 character mutations of such lines and arbitrary unicode lines (model/implementation agreement only). "
-                "Right-hand sides: all strings up to length 4/5 over {5,2,3,.,e,+,-,m,space}. Non-trivial = line has at "
+                "Right-hand sides: all strings up to length 4/6 over {5,2,3,.,e,+,-,m,space}. Non-trivial = line has at "
                 "least two optional parts, or the condition has a unit or a multi-digit number.")
 
     corpus = load_corpus("C18")
@@ -238,7 +238,7 @@ def run(ctx: Check) -> int:
            [{"line": pc.rand_unicode_line(rng, 16).replace("\n", "")} for _ in range(ctx.n(500, 30000))]
     alpha = ["5", "2", "3", ".", "e", "+", "-", "m", " "]
     rhs = []
-    for k in range(0, ctx.n(4, 5) + 1):
+    for k in range(0, ctx.n(4, 6) + 1):
         for t in itertools.product(alpha, repeat=k):
             rhs.append({"ops": COND_OPS, "part": "X >" + "".join(t)})
     near_cond = [{"ops": rng.choice([COND_OPS, ["="]]),
@@ -278,7 +278,7 @@ def run(ctx: Check) -> int:
         ctx.count("value:text" if v[0].isalpha() else "value:number" + ("-ending-2-or-3" if v[-1] in "23" else ""))
         ctx.count("unit:none" if u is None else "unit:outside-class" if not set(u) <= UNIT_CLASS else "unit:in-class")
     ctx.extra["supported_units"] = units
-    ctx.extra["exhaustive_scope"] = f"right-hand sides: all {len(rhs)} strings of length <= {ctx.n(4, 5)} over {alpha}"
+    ctx.extra["exhaustive_scope"] = f"right-hand sides: all {len(rhs)} strings of length <= {ctx.n(4, 6)} over {alpha}"
     ctx.exhaustive = False
     ctx.assumptions = ["lines contain no line-boundary character (they come from str.splitlines)",
                        "a well-formed instruction name starts with a letter or '_' and is trimmed; argument and text "
